@@ -117,23 +117,30 @@ func (j *Joe) Subscribe(ctx context.Context, sub Subscription) error {
 	j.init()
 
 	done := make(chan error, 1)
+	verifAt("sub.enter", sub.Client, subscriber(done))
 
 	select {
 	case <-j.done:
+		verifAt("sub.s1.closed", sub.Client, nil)
 		return ErrProviderClosed
 	case j.subscription <- subscription{done: done, Subscription: sub}:
+		verifAt("sub.s1.sent", sub.Client, nil)
 	}
 
 	select {
 	case err := <-done:
+		verifAt("sub.s2.done", sub.Client, err)
 		return err
 	case <-ctx.Done():
+		verifAt("sub.s2.ctx", sub.Client, nil)
 	}
 
 	select {
 	case err := <-done:
+		verifAt("sub.s3.done", sub.Client, err)
 		return err
 	case j.unsubscription <- done:
+		verifAt("sub.s3.sent", sub.Client, nil)
 		return nil
 	}
 }
@@ -167,6 +174,7 @@ func (j *Joe) Publish(msg *Message, topics []string) error {
 	case j.message <- pub:
 		return <-errs
 	case <-j.done:
+		verifAt("pub.closed", msg, nil)
 		return ErrProviderClosed
 	}
 }
@@ -180,15 +188,20 @@ func (j *Joe) Shutdown(ctx context.Context) (err error) {
 
 	defer func() {
 		if r := recover(); r != nil {
+			verifAt("down.recovered", ctx, nil)
 			err = ErrProviderClosed
 		}
 	}()
 
+	verifAt("down.pre", ctx, nil)
 	close(j.done)
+	verifAt("down.ok", ctx, nil)
 
 	select {
 	case <-j.closed:
+		verifAt("down.closed", ctx, nil)
 	case <-ctx.Done():
+		verifAt("down.ctx", ctx, nil)
 		err = ctx.Err()
 	}
 
@@ -196,30 +209,36 @@ func (j *Joe) Shutdown(ctx context.Context) (err error) {
 }
 
 func (j *Joe) removeSubscriber(sub subscriber) {
+	verifAt("loop.remove", sub, nil)
 	delete(j.subscribers, sub)
 	close(sub)
 }
 
 func (j *Joe) start(replay Replayer) {
 	defer close(j.closed)
+	defer verifAt("loop.exit", nil, nil)
 	// defer closing all subscribers instead of closing them when done is closed
 	// so in case of a panic subscribers won't block the request goroutines forever.
 	defer j.closeSubscribers()
 
 	for {
+		verifAt("loop.select", nil, nil)
 		select {
 		case msg := <-j.message:
+			verifAt("loop.msg", msg.message, nil)
 			if replay != nil {
 				m, err := tryPut(msg.messageWithTopics, &replay)
 				if _, isPanic := err.(replayPanic); err != nil && !isPanic { //nolint:errorlint // it's our error
 					// NOTE(tmaxmax): We could return panic errors here but we'd have to expose
 					// the error type in order for this error to be handled. Let's not change
 					// the public errors for now. See also the other note below.
+					verifAt("loop.reply.err", msg.message, err)
 					msg.replayerErr <- err
 				} else if m != nil {
 					msg.message = m
 				}
 			}
+			verifAt("loop.reply", msg.message, nil)
 			close(msg.replayerErr)
 
 			for done, sub := range j.subscribers {
@@ -230,12 +249,14 @@ func (j *Joe) start(replay Replayer) {
 					}
 
 					if err != nil {
+						verifAt("loop.fail", sub.Client, err)
 						done <- err
 						j.removeSubscriber(done)
 					}
 				}
 			}
 		case sub := <-j.subscription:
+			verifAt("loop.sub", sub.Client, nil)
 			var err error
 			if replay != nil {
 				err = tryReplay(sub.Subscription, &replay)
@@ -248,14 +269,18 @@ func (j *Joe) start(replay Replayer) {
 			//
 			// If there is demand to handle replayer panics a feature could be added.
 			if _, isPanic := err.(replayPanic); err != nil && !isPanic { //nolint:errorlint // it's our error
+				verifAt("loop.subfail", sub.Client, err)
 				sub.done <- err
 				close(sub.done)
 			} else {
 				j.subscribers[sub.done] = sub.Subscription
+				verifAt("loop.register", sub.Client, nil)
 			}
 		case sub := <-j.unsubscription:
+			verifAt("loop.unsub", sub, nil)
 			j.removeSubscriber(sub)
 		case <-j.done:
+			verifAt("loop.done", nil, nil)
 			return
 		}
 	}
